@@ -133,7 +133,7 @@ impl<'de> serde::Deserializer<'de> for ValueDeserializer {
         V: serde::de::Visitor<'de>,
     {
         if serde_spanned::__unstable::is_spanned(name, fields) {
-            if let Some(span) = self.input.span() {
+            if let Some(span) = item_span(&self.input) {
                 return visitor.visit_map(super::SpannedDeserializer::new(self, span));
             }
         }
@@ -254,4 +254,27 @@ impl std::str::FromStr for ValueDeserializer {
         let v = crate::parser::parse_value(s).map_err(Error::from)?;
         Ok(v.into_deserializer())
     }
+}
+
+/// The span of an item; tables without one of their own (created by dotted keys or implied by a
+/// longer header) are located by the span their entries cover
+fn item_span(item: &crate::Item) -> Option<std::ops::Range<usize>> {
+    item.span().or_else(|| match item {
+        crate::Item::Table(t) => items_span(&t.items),
+        crate::Item::Value(crate::Value::InlineTable(t)) => items_span(&t.items),
+        _ => None,
+    })
+}
+
+fn items_span(items: &crate::table::KeyValuePairs) -> Option<std::ops::Range<usize>> {
+    let mut span: Option<std::ops::Range<usize>> = None;
+    for (key, value) in items.iter() {
+        for s in [key.span(), item_span(value)].into_iter().flatten() {
+            span = Some(match span {
+                Some(o) => o.start.min(s.start)..o.end.max(s.end),
+                None => s,
+            });
+        }
+    }
+    span
 }
